@@ -3,6 +3,7 @@ package main
 import (
 	"strconv"
 
+	"github.com/roddhjav/apparmor.d/pkg/aa"
 	"github.com/roddhjav/apparmor.d/pkg/prebuild"
 	"github.com/roddhjav/apparmor.d/pkg/prebuild/directive"
 )
@@ -18,5 +19,28 @@ func init() {
 			return "err"
 		}
 		return "ok\t" + esc(out)
+	}
+}
+
+func init() {
+	// dbusdir <directive line> -> ok <generated text> <rules read back by aa.ParseRules...>
+	suites["dbusdir"] = func(f []string) string {
+		raw := unesc(f[0])
+		out, err := directive.Run(prebuild.RootApparmord.Join("x"), raw+"\n")
+		if err != nil {
+			return "err"
+		}
+		paras, _, err := aa.ParseRules(out)
+		if err != nil {
+			return "ok\t" + esc(out) + "\tparse-error"
+		}
+		rs := paras.Flatten()
+		keep := aa.Rules{}
+		for _, r := range rs {
+			if r != nil && r.Kind() != aa.COMMENT {
+				keep = append(keep, r)
+			}
+		}
+		return "ok\t" + esc(out) + "\t" + encodeRules(keep)
 	}
 }
